@@ -435,7 +435,50 @@ def e10b(ctx):
     ctx.floor("E10b", n, 1, "sub-edit branches in print_SequenceNode")
 
 
+def e10c(ctx):
+    m = ctx.model
+    ctx.rule("E10c", "plain-text marks are unambiguous: without colour, StringFormatter.write_char writes the change markers "
+                     "(Remove.REMOVE_STRING `~~`, Insert.INSERT_STRING `++`) inline between the characters of a string, so the JSON "
+                     "string formatter's escape() must rewrite a literal marker character in the content - otherwise the unchanged "
+                     "string \"a~~b~~c\" and the edit \"abc\" -> \"ac\" render to the same bytes and neither document can be read back")
+    sq = m.need_class("StringFormatter")
+    wc = m.method(sq, "write_char")
+    marks = []
+    for c in walk_no_nested(wc.node):
+        if isinstance(c, ast.Call) and isinstance(c.func, ast.Attribute) and c.func.attr == "write" and c.args \
+                and isinstance(c.args[0], ast.Attribute) and c.args[0].attr in ("INSERT_STRING", "REMOVE_STRING"):
+            facts = [ast.unparse(t).replace(" ", "") for t, pol in flatten_conditions(dominating_conditions(c))]
+            if any("ansi_color" in x for x in facts):
+                marks.append(c)
+    ctx.floor("E10c", len(marks), 2, "inline markers written in the colourless branch of write_char")
+    # the marker texts
+    texts = {}
+    for cname, attr in (("Remove", "REMOVE_STRING"), ("Insert", "INSERT_STRING")):
+        q = m.find_class(cname)
+        mod, cnode = m.classes[q]
+        for st in cnode.body:
+            t = st.target if isinstance(st, ast.AnnAssign) else (st.targets[0] if isinstance(st, ast.Assign) else None)
+            if isinstance(t, ast.Name) and t.id == attr and isinstance(st.value, ast.Constant):
+                texts[attr] = st.value.value
+    jq = m.find_class("JSONStringFormatter")
+    esc = m.method(jq, "escape") if jq else None
+    if esc is None or len(texts) != 2:
+        ctx.inconclusive("E10c", "graphtage/json.py", "JSONStringFormatter.escape", None, "escape", "escape() or the marker constants not found")
+        return
+    etxt = ast.unparse(esc.node)
+    for attr, mk in sorted(texts.items()):
+        ch = mk[0]
+        if repr(ch)[1:-1] in etxt.replace("\\", "\\"):
+            ctx.proved("E10c", esc.file, "JSONStringFormatter.escape", esc.node, f"escape handles {ch!r}", f"literal {ch!r} in string content is rewritten")
+        else:
+            ctx.violation("E10c", esc.file, "JSONStringFormatter.escape", esc.node, f"escape handles {ch!r}",
+                          f"without colour write_char writes `{mk}` between the characters of a string, and escape() (`json.dumps(c)[1:-1]`) "
+                          f"leaves a literal {ch!r} as it is: an unchanged string containing `{mk}...{mk}` renders exactly like a change, "
+                          f"so the plain rendering cannot be read back to either document")
+
+
 def run(ctx):
+    e10c(ctx)
     from . import c01
     c01.r01d(ctx)     # the script the marks are drawn from accounts for every pair of a keyed mapping
     c01.r01a(ctx)     # ... and for every element of a positional list edit
